@@ -32,6 +32,7 @@ type stCase struct {
 	N      int    `json:"n"`
 	Child  string `json:"child"` // none | exitfirst | outlive | killed | orphanexit | orphankilled
 	CN     int    `json:"cn"`
+	Core   int    `json:"core"` // 1: core dumps enabled (RLIMIT_CORE > 0, writable work dir)
 }
 
 type stObs struct {
@@ -49,7 +50,7 @@ type stObs struct {
 var faultName = map[int]string{11: "segv", 4: "ill", 8: "fpe", 5: "trap", 7: "bus"}
 
 func specOf(c stCase) (limrun.Spec, error) {
-	s := limrun.Spec{Runner: c.Runner, Limit: runner.Limit{TimeLimit: 1 << 40, MemoryLimit: 1 << 40}}
+	s := limrun.Spec{Runner: c.Runner, Limit: runner.Limit{TimeLimit: 1 << 40, MemoryLimit: 1 << 40}, Core: c.Core == 1}
 	switch c.Child {
 	case "none", "outlive":
 		s.Child = c.Child
